@@ -20,7 +20,7 @@ package pkgload
 // ---- C14: the context parameters of a function are exactly the `context NAME` settings of that
 // ---- function's own doc comment (nothing leaks from another declaration of the file or package) ----
 //@ func PackageLoader.localConfig(g; pkg, name)
-//@   props C14 C19 C06
+//@   props C14 C19 C06 C09
 //@   loop 3 invariant forall k string :: has(contexts, k) ==> parse.DeclaresContext(lines, k)
 //@   loop 3 invariant forall j int :: 0 <= j && j < idx && parse.IsContextLine(lines[j]) ==> has(contexts, parse.ContextName(lines[j]))
 //@   loop 1 invariant forall k string :: has(g.locals, k) == old(has(g.locals, k))
@@ -69,6 +69,8 @@ package pkgload
 //@   props C06 C14
 //@   errdrop method.Parse#1 documented behaviour of patterns: functions that match the name pattern but are no conversion functions are skipped (an empty result is an error)
 //@   assigns map(g.locals)
-//@   at@C06,C14 call g.localConfig#1 assert arg0 == pkg && obj == scope.Lookup(arg1)
+//@   at@C06,C14,C19 call g.localConfig#1 assert arg0 == pkg && obj == scope.Lookup(arg1)
 //@   at@C14 call method.Parse#1 assert arg1 == opts
+// a pattern selects a function only when it matches the WHOLE name
+//@   at@C06,C14 call method.Parse#1 assert len(loc) == 2 && loc[0] == 0 && loc[1] == len(name)
 //@   at@C14 call g.getOneParsed#1 assert arg2 == opts && arg1 == name
